@@ -3,9 +3,10 @@
 A RUN is a base gate plus a chain of modifier METHOD calls applied one after the other:
   {"base": <base spec>, "chain": [["dagger"], ["controlled", n], ["power", "p/q"(, "f")], ["exp"], ["replace", [params]] ...],
    "order": "fwd"|"rev", "share": "none"|"base"|"all", "reread": bool, "decoy": bool, "recheck": bool}      (see `run_one`)
-base spec:  {"gate": NAME, "params": [[ch, sh], ...]}                       built-in at rational half-angle points
-            {"custom": name, "rows": [[entry]], "nsyms": k, "params": [{"v": [re, im]}, ...]}
-                                                                            entry = [re, im] constant | {"sym": i}
+base spec:  {"gate": NAME, "params": [[ch, sh] | {"pi": "p/q"}, ...]}       built-in at rational half-angle points / at exactly p*pi/q
+            {"custom": name, "rows": [[entry]], "nsyms": k, "params": [{"v": [re, im]} | {"x": NAME}, ...], "symflags": [...]}
+                        entry = [re, im] constant | {"sym": i} | {"x": NAME} (a scalar of XTAB: a number whose nature is not
+                        visible syntactically) | {"xp": [NAME, ...]} (product) | {"xs": "m1pow"|"expipi", "sym": i} ((-1)**p_i, exp(I pi p_i))
 A CASE is either one run ({"kind": "chain"|"malformed"|"exotic"|"special", ...run fields}) or a SESSION
 ({"kind": "session"|"session-ext", "runs": [run, ...]}): several runs executed one after the other in the same process on shared
 prototypes / gate definitions / (per `share`) gate objects.  Sessions exist because the property quantifies over gates, i.e.
@@ -38,7 +39,14 @@ RULE = ("random modifier chains (depth 0..4: dagger / controlled(1..3) / integer
         "after all gates were made, outermost first (rev), optional decoy call of the same method with another argument before "
         "every modifier call; every matrix the library returns is edited in place after it was recorded and the last (or every) "
         "matrix is asked for again; EXOTIC = exponents up to +-12, integer exponents as floats, 4..5 controls, roots 1/5..1/16; "
-        "SPECIAL = parameters at which the matrix is self-adjoint, replaced by generic ones and back, around a dagger; plus a "
+        "SPECIAL = parameters at which the matrix is self-adjoint, replaced by generic ones and back, around a dagger; "
+        "SYNTAX = custom gates (and parameter values) whose complexness / realness / zeroness / numberness / self-adjointness is "
+        "not visible syntactically ((-1)**(p/q), root(-n,q), exp(I pi p/q), sqrt(-n), exp_polar, sqrt(2)/2, cos(1), z+1/z, "
+        "unevaluated zeros, Float / python complex entries, products of these; diag / triangular / dense / unitary / "
+        "disguised-self-adjoint / symmetric-non-self-adjoint 2x2 and 4x4 matrices; ZPow(t)=diag(1,(-1)**t) at exact rational t; "
+        "symbols with real/positive/complex assumptions) and built-ins at exact sympy multiples of pi, two chains per base: one "
+        "whose FIRST modifier is dealt round-robin over dagger / power -n / exp / controlled / power 1/q / power n / replace, one "
+        "from a pattern list or random -- the model answers when every value lies in Q(zeta8), else the case is oracle-only; plus a "
         "malformed stream (control counts <= 0, wrong parameter arity, negative powers of singular matrices). non-trivial: chain "
         "of >= 2 modifiers, or a session of >= 3 runs; distinct = distinct canonical JSON of the case")
 TRUSTED = [
@@ -56,6 +64,12 @@ ASSUMPTIONS = [
     "same process, on how often they were asked for, or on what the caller did to an earlier answer (this is what the sessions, "
     "the decoy calls and the in-place edits of returned matrices test; the property's sentences are then evaluated per run)",
     "two CustomGateDefinitions may carry the same gate_name (legal, though discouraged by the Gate.name docstring)",
+    "custom-gate entries and parameters may be any sympy NUMBER expression (is_number), in any syntactic form; symbols may carry "
+    "assumptions as long as the values substituted respect them; the oracle only ever looks at complex(evalf) of what the library "
+    "returns (polar numbers are projected to the plane first)",
+    "a NonInvertibleMatrixError / IndexError raised inside sympy's Matrix.exp() or non-integer ** although the argument matrix was "
+    "computed is a failure of the external routine (jordan_form; e.g. a repeated eigenvalue written as (-1)**(3/4) and I**(3/2)): "
+    "counted, not judged",
     "the matrix of a BASE gate is not judged by the oracle (that is C02 / C06); a wrong base matrix is visible to the model "
     "comparison only",
 ]
@@ -105,28 +119,155 @@ def _lib():
     return oqc, _gates
 
 
+# ---- scalars whose nature (complex / real / zero / a plain number) is NOT visible from their syntactic form.
+# name -> exact value in Q(zeta8) as [a, b, c, d] (a + b*z + c*z^2 + d*z^3, z = e^{i pi/4}) when the field contains it, else None
+# (then the case is oracle-only).  `_xexpr` builds the sympy expression.
+XTAB = {
+    # roots of unity written without the imaginary unit: .has(I) is False, is_real is False only after inference
+    "m1^(1/4)": [0, 1, 0, 0], "m1^(3/4)": [0, 0, 0, 1], "m1^(-1/4)": [0, 0, 0, -1], "m1^(5/4)": [0, -1, 0, 0],
+    "m1^(1/3)": None, "m1^(-1/3)": None, "m1^(2/3)": None, "m1^(-2/3)": None, "m1^(1/6)": None, "m1^(1/8)": None, "m1^(3/8)": None,
+    "root(-1,3)^2": None, "root(-4,4)": [1, 0, 1, 0], "root(-16,4)": [0, 2, 0, 0], "root(-8,3)": None, "(-27)^(1/3)": None,
+    # ... with it
+    "sqrt(-2)": [0, 1, 0, 1], "sqrt(-9)": [0, 0, 3, 0], "exp(i pi/4)": [0, 1, 0, 0], "exp(-3i pi/4)": [0, -1, 0, 0],
+    "exp(i pi/3)": None, "exp(-i pi/3)": None, "exp(-2i pi/3)": None, "exp(i pi/8)": None, "exp(i pi/2)": [0, 0, 1, 0], "exp(i pi)": [-1, 0, 0, 0],
+    "sqrt(I)": [0, 1, 0, 0], "(1+I)/sqrt(2)": [0, 1, 0, 0], "I^(3/2)": [0, 0, 0, 1], "Mul(2,1/2+I)": [1, 0, 2, 0],
+    # polar numbers
+    "exp_polar(i pi/4)": [0, 1, 0, 0], "exp_polar(-i pi/3)": None,
+    # real numbers that are not sympy Numbers (is_Number False, is_number True)
+    "sqrt(2)/2": [0, "1/2", 0, "-1/2"], "1+sqrt(2)": [1, 1, 0, -1], "-sqrt(2)": [0, -1, 0, 1], "cos(1)": None, "2^(1/3)": None,
+    "cos(pi/8)": None, "pi/4": None,
+    # sums whose realness / imaginariness sympy cannot decide (is_real None)
+    "z+1/z": [0, 1, 0, -1], "z-1/z": [0, 1, 0, 1],
+    # zero that does not look like zero
+    "hidden0": [0, 0, 0, 0], "hidden0b": [0, 0, 0, 0], "hidden0c": [0, 0, 0, 0],  # the last one: is_zero is None
+    # Float / python complex next to exact entries
+    "Float(0.5)": ["1/2", 0, 0, 0], "Float(-1.25)": ["-5/4", 0, 0, 0], "complex(0.5,-0.25)": ["1/2", 0, "-1/4", 0],
+    "0.5*I": [0, 0, "1/2", 0], "complex(0,1)": [0, 0, 1, 0], "Float(2.0)": [2, 0, 0, 0],
+}
+XTAB["minus1"] = [-1, 0, 0, 0]
+XCONJ = {"m1^(1/4)": "m1^(-1/4)", "m1^(3/4)": "m1^(5/4)", "m1^(1/3)": "m1^(-1/3)", "m1^(2/3)": "m1^(-2/3)",
+         "exp(i pi/3)": "exp(-i pi/3)", "exp(i pi/4)": "m1^(-1/4)", "sqrt(I)": "m1^(-1/4)", "exp_polar(i pi/4)": "m1^(-1/4)"}
+XZERO = ("hidden0", "hidden0b", "hidden0c")
+X_UNDECIDED = ["z+1/z", "z-1/z"]  # non-zero, but sympy cannot tell (is_zero / is_real are None)
+_XEXPR = {}
+
+
+def _xexpr(name):
+    import sympy as sp
+    if not _XEXPR:
+        R, I, pi = sp.Rational, sp.I, sp.pi
+        z = sp.Integer(-1) ** R(1, 4)
+        _XEXPR.update({
+            "m1^(1/4)": sp.Integer(-1) ** R(1, 4), "m1^(3/4)": sp.Integer(-1) ** R(3, 4), "m1^(-1/4)": sp.Integer(-1) ** R(-1, 4),
+            "m1^(5/4)": sp.Integer(-1) ** R(5, 4), "m1^(1/3)": sp.Integer(-1) ** R(1, 3), "m1^(-1/3)": sp.Integer(-1) ** R(-1, 3),
+            "m1^(2/3)": sp.Integer(-1) ** R(2, 3), "m1^(-2/3)": sp.Integer(-1) ** R(-2, 3), "m1^(1/6)": sp.Integer(-1) ** R(1, 6),
+            "m1^(1/8)": sp.Integer(-1) ** R(1, 8), "m1^(3/8)": sp.Integer(-1) ** R(3, 8),
+            "root(-1,3)^2": sp.root(-1, 3) ** 2, "root(-4,4)": sp.root(-4, 4), "root(-16,4)": sp.root(-16, 4), "root(-8,3)": sp.root(-8, 3),
+            "(-27)^(1/3)": sp.Integer(-27) ** R(1, 3),
+            "sqrt(-2)": sp.sqrt(-2), "sqrt(-9)": sp.sqrt(-9), "exp(i pi/4)": sp.exp(I * pi / 4), "exp(-3i pi/4)": sp.exp(-3 * I * pi / 4),
+            "exp(i pi/3)": sp.exp(I * pi / 3), "exp(-i pi/3)": sp.exp(-I * pi / 3), "exp(-2i pi/3)": sp.exp(-2 * I * pi / 3),
+            "exp(i pi/8)": sp.exp(I * pi / 8), "exp(i pi/2)": sp.exp(I * pi / 2), "exp(i pi)": sp.exp(I * pi),
+            "sqrt(I)": sp.sqrt(I), "(1+I)/sqrt(2)": (1 + I) / sp.sqrt(2), "I^(3/2)": I ** R(3, 2),
+            "Mul(2,1/2+I)": sp.Mul(2, R(1, 2) + I, evaluate=False),
+            "exp_polar(i pi/4)": sp.exp_polar(I * pi / 4), "exp_polar(-i pi/3)": sp.exp_polar(-I * pi / 3),
+            "sqrt(2)/2": sp.sqrt(2) / 2, "1+sqrt(2)": 1 + sp.sqrt(2), "-sqrt(2)": -sp.sqrt(2), "cos(1)": sp.cos(1),
+            "2^(1/3)": sp.Integer(2) ** R(1, 3), "cos(pi/8)": sp.cos(pi / 8), "pi/4": pi / 4,
+            "z+1/z": z + 1 / z, "z-1/z": z - 1 / z,
+            "hidden0": sp.Add(sp.sqrt(2), -sp.sqrt(2), evaluate=False), "hidden0b": (1 + sp.sqrt(2)) ** 2 - 3 - 2 * sp.sqrt(2),
+            "hidden0c": z + 1 / z - sp.sqrt(2),
+            "Float(0.5)": sp.Float(0.5), "Float(-1.25)": sp.Float(-1.25), "complex(0.5,-0.25)": sp.sympify(complex(0.5, -0.25)),
+            "0.5*I": sp.Float(0.5) * I, "complex(0,1)": sp.sympify(complex(0, 1)), "Float(2.0)": sp.Float(2.0),
+            "minus1": sp.Integer(-1),
+        })
+        assert set(_XEXPR) == set(XTAB)
+    return _XEXPR[name]
+
+
+_XVAL = {}
+
+
+def _xval(name):
+    """numeric value, by evalf of the expression (used by the generators only, for size / invertibility discipline)"""
+    import sympy as sp
+    if name not in _XVAL:
+        _XVAL[name] = complex(sp.N(_xexpr(name), 30))
+    return _XVAL[name]
+
+
+def _gauss_expr(e):
+    import sympy
+    return sympy.Rational(str(unrat(e[0]))) + sympy.I * sympy.Rational(str(unrat(e[1])))
+
+
+def _custom_param_value(p):
+    if "x" in p:
+        return _xexpr(p["x"])
+    return _gauss_expr(p["v"])
+
+
 def py_params(bspec, params):
     """python values handed to the library for a list of parameter specs"""
     import sympy
     if "gate" in bspec:
         if bspec["gate"] == "Delay":
             return tuple(float(unrat(a[0])) for a in params)
-        return tuple(circ.theta_of(a) for a in params)
-    return tuple(sympy.Rational(str(unrat(p["v"][0]))) + sympy.I * sympy.Rational(str(unrat(p["v"][1]))) for p in params)
+        # {"pi": "p/q"}: the exact sympy number p*pi/q (the gate matrix is then exact: cos(pi/6) = sqrt(3)/2, exp(-I*pi/8) ...)
+        return tuple((sympy.pi * sympy.Rational(str(unrat(a["pi"])))) if isinstance(a, dict) else circ.theta_of(a) for a in params)
+    return tuple(_custom_param_value(p) for p in params)
 
 
 _DEFS = {}
+SYM_FLAGS = {"real": {"real": True}, "positive": {"positive": True}, "complex": {"complex": True}}
+
+
+def _cyc_mul(u, v):
+    """product in Q(zeta8) = Q[z]/(z^4 + 1) on coefficient lists"""
+    u, v = [unrat(x) for x in u], [unrat(x) for x in v]
+    out = [Fraction(0)] * 4
+    for i in range(4):
+        for j in range(4):
+            k, sgn = (i + j) % 4, (-1 if i + j >= 4 else 1)
+            out[k] += sgn * u[i] * v[j]
+    return [rat(x) for x in out]
+
+
+def _xp_cyc(names):
+    acc = [1, 0, 0, 0]
+    for n in names:
+        if XTAB[n] is None:
+            return None
+        acc = _cyc_mul(acc, XTAB[n])
+    return acc
+
+
+def _entry_expr(e, syms):
+    import sympy
+    if isinstance(e, dict):
+        if "x" in e:
+            return _xexpr(e["x"])
+        if "xp" in e:  # a product of such scalars (sympy combines what it can: (-1)**(1/4)*sqrt(2)/2 stays free of I)
+            out = sympy.Integer(1)
+            for n in e["xp"]:
+                out = out * _xexpr(n)
+            return out
+        if "xs" in e:  # a parameter inside an expression whose value is complex without showing it
+            if e["xs"] == "m1pow":
+                return sympy.Integer(-1) ** syms[e["sym"]]
+            if e["xs"] == "expipi":
+                return sympy.exp(sympy.I * sympy.pi * syms[e["sym"]])
+            raise ValueError(e)
+        return syms[e["sym"]]
+    return _gauss_expr(e)
 
 
 def custom_definition(bspec):
     import sympy
     oqc, _ = _lib()
-    key = common.canon([bspec["custom"], bspec["rows"], bspec["nsyms"]])
+    flags = bspec.get("symflags") or [None] * bspec["nsyms"]
+    key = common.canon([bspec["custom"], bspec["rows"], bspec["nsyms"], flags])
     if key not in _DEFS:
-        syms = tuple(sympy.Symbol(f"p{i}") for i in range(bspec["nsyms"]))
-        rows = [[syms[e["sym"]] if isinstance(e, dict) else
-                 sympy.Rational(str(unrat(e[0]))) + sympy.I * sympy.Rational(str(unrat(e[1]))) for e in row]
-                for row in bspec["rows"]]
+        syms = tuple(sympy.Symbol(f"p{i}", **SYM_FLAGS.get(flags[i], {})) for i in range(bspec["nsyms"]))
+        rows = [[_entry_expr(e, syms) for e in row] for row in bspec["rows"]]
         _DEFS[key] = oqc.CustomGateDefinition(bspec["custom"], sympy.Matrix(rows), syms)
     return _DEFS[key]
 
@@ -177,12 +318,15 @@ def _exp_str(x):
 
 def _match_params(actual, bspec, candidates):
     actual = tuple(actual)
-    for cand in candidates:
-        try:
-            if len(cand) == len(actual) and all(a == b for a, b in zip(py_params(bspec, cand), actual)):
-                return cand
-        except Exception:
-            pass
+    # first the candidate that is the same value of the same type (Float(2.0) == Integer(2) in sympy), then equal values
+    for same_type in (True, False):
+        for cand in candidates:
+            try:
+                if len(cand) == len(actual) and all(a == b and (not same_type or type(a) is type(b))
+                                                    for a, b in zip(py_params(bspec, cand), actual)):
+                    return cand
+            except Exception:
+                pass
     return {"unmatched": repr(actual)[:120]}
 
 
@@ -229,7 +373,15 @@ def _poison(m):
         pass
 
 
-def eval_matrix(g, external):
+def has_negative_power(s):
+    while isinstance(s, dict) and "g" in s:
+        if s["t"] == "pow" and "/" not in s["e"] and s["e"].startswith("-"):
+            return True
+        s = s["g"]
+    return False
+
+
+def eval_matrix(g, external, inverse_involved=True):
     """numeric matrix of a real gate (JSON [[ [re, im], …], …]) or an error / timeout marker.  The object the library
     returned is converted first and then edited in place (see `_poison`)."""
     import sympy
@@ -238,10 +390,22 @@ def eval_matrix(g, external):
     try:
         with time_limit(_LIMIT[0]):
             raw = g.matrix
-            m = circ.impl_matrix_to_numpy(raw)
+            try:
+                m = circ.impl_matrix_to_numpy(raw)
+            except TypeError:
+                # polar numbers on the Riemann surface (exp_polar(I*pi), products of exp_polar) do not evalf to a complex:
+                # project them to the plane first.  This is a limitation of the conversion, not an answer of the library.
+                if not (isinstance(raw, sympy.MatrixBase) and raw.has(sympy.exp_polar)):
+                    raise
+                m = circ.impl_matrix_to_numpy(raw.applyfunc(sympy.unpolarify))
     except CaseTimeout:
         return {"timeout": True}
     except NonInvertibleMatrixError:
+        if external and not inverse_involved:
+            # no inverse is asked for anywhere in the gate: the error comes from inside Matrix.exp() / the fractional power
+            # (jordan_form inverts its eigenvector matrix; it is singular when a repeated eigenvalue is written in two
+            # syntactic forms, e.g. diag entries (-1)**(3/4) and I**(3/2))
+            return {"exterr": "NonInvertibleMatrixError"}
         return {"err": "err:noninv"}
     except TypeError:
         if external:
@@ -267,9 +431,10 @@ def _eval_into(d, g, skip=False, reread=False):
         d["m"] = {"timeout": True, "skipped": True}
         return
     ext = has_external(d["struct"])
-    d["m"] = eval_matrix(g, ext)
+    inv = has_negative_power(d["struct"])
+    d["m"] = eval_matrix(g, ext, inv)
     if reread and _is_mat(d["m"]):
-        d["m2"] = eval_matrix(g, ext)
+        d["m2"] = eval_matrix(g, ext, inv)
 
 
 def _timed_out(d):
@@ -299,12 +464,16 @@ def _decoy_mod(mod, bspec):
         if "gate" in bspec:
             if bspec["gate"] == "Delay":
                 ps[0] = [rat(unrat(ps[0][0]) + Fraction(1, 4)), 0]
+            elif isinstance(ps[0], dict):
+                ps[0] = {"pi": rat(unrat(ps[0]["pi"]) + Fraction(1, 2))}
             elif unrat(ps[0][1]) != 0:
                 ps[0] = [ps[0][0], rat(-unrat(ps[0][1]))]
             else:
                 ps[0] = ["3/5", "4/5"] if unrat(ps[0][0]) != Fraction(3, 5) else ["4/5", "3/5"]
-        else:
+        elif "v" in ps[0]:
             ps[0] = {"v": [rat(unrat(ps[0]["v"][0]) + 1), ps[0]["v"][1]]}
+        else:
+            ps[0] = {"x": "m1^(3/4)" if ps[0]["x"] != "m1^(3/4)" else "sqrt(2)/2"}
         return ["replace", ps]
     return None
 
@@ -411,6 +580,21 @@ def run_one(run, tier="quick", shared=None):
         g = g2
     for d, obj, h, last, idx in reversed(pending):
         read(d, obj, h, last, idx=idx)
+    # a failure inside sympy's exp / root routine is inherited by every gate built on top of it (until the parameters are replaced)
+    broken = False
+    for i, d in enumerate(steps):
+        if i > 0 and chain[i - 1][0] == "replace":
+            broken = False
+        if i > 0 and isinstance(d, dict) and _is_ext_mod(chain[i - 1]) and _is_mat(steps[i - 1].get("m")) \
+                and isinstance(d.get("m"), dict) and d["m"].get("err") == "err:noninv":
+            # the argument of exp / the root was computed (every inverse it needs exists): the error is jordan_form's own
+            d["m"] = {"exterr": "NonInvertibleMatrixError"}
+        for dd in (d, d.get("rebuilt") if isinstance(d, dict) else None):
+            m = dd.get("m") if isinstance(dd, dict) else None
+            if isinstance(m, dict) and "exterr" in m and dd is d:
+                broken = True
+            elif broken and isinstance(m, dict) and m.get("err") == "err:noninv":
+                dd["m"] = {"exterr": "NonInvertibleMatrixError", "inherited": True}
     if run.get("recheck"):
         # the gates made on the way must still be what they were: structure / num_qubits / params read once more at the end
         for d, obj in zip(steps, objs):
@@ -646,13 +830,70 @@ def _cyc_of_rat(x):
     return [rat(unrat(x)), 0, 0, 0]
 
 
+class NotInField(Exception):
+    """the value is not an element of Q(zeta8): the model cannot be asked (the case is oracle-only)"""
+
+
+def _cyc(v):
+    return [rat(unrat(x)) for x in v]
+
+
+_COS8 = [[1, 0, 0, 0], [0, "1/2", 0, "-1/2"], [0, 0, 0, 0], [0, "-1/2", 0, "1/2"],
+         [-1, 0, 0, 0], [0, "-1/2", 0, "1/2"], [0, 0, 0, 0], [0, "1/2", 0, "-1/2"]]
+
+
+def _pi_halfangle(pq):
+    """theta = (p/q) pi -> [cos(theta/2), sin(theta/2)] in Q(zeta8); possible iff theta is a multiple of pi/2"""
+    k = unrat(pq) * 2  # theta/2 = k * pi/4
+    if k.denominator != 1:
+        raise NotInField(pq)
+    k = int(k) % 8
+    return [_cyc(_COS8[k]), _cyc(_COS8[(k - 2) % 8])]
+
+
+def _model_param(p):
+    if isinstance(p, dict):
+        if "pi" in p:
+            return _pi_halfangle(p["pi"])
+        if "x" in p:
+            if XTAB[p["x"]] is None:
+                raise NotInField(p["x"])
+            return {"v": _cyc(XTAB[p["x"]])}
+        return {"v": [rat(unrat(p["v"][0])), rat(unrat(p["v"][1]))]}
+    return [rat(unrat(p[0])), rat(unrat(p[1]))]
+
+
 def _model_params(params):
-    return [p if isinstance(p, dict) else [rat(unrat(p[0])), rat(unrat(p[1]))] for p in params]
+    return [_model_param(p) for p in params]
+
+
+def _model_rows(rows):
+    out = []
+    for row in rows:
+        r = []
+        for e in row:
+            if isinstance(e, dict) and "x" in e:
+                if XTAB[e["x"]] is None:
+                    raise NotInField(e["x"])
+                r.append(_cyc(XTAB[e["x"]]))
+            elif isinstance(e, dict) and "xp" in e:
+                c = _xp_cyc(e["xp"])
+                if c is None:
+                    raise NotInField(e["xp"])
+                r.append(_cyc(c))
+            elif isinstance(e, dict) and "xs" in e:
+                raise NotInField(e["xs"])
+            else:
+                r.append(e)
+        out.append(r)
+    return out
 
 
 def _payload(case, table):
-    b = dict(case["base"])
+    b = {k: v for k, v in case["base"].items() if k != "symflags"}
     b["params"] = _model_params(b["params"])
+    if "rows" in b:
+        b["rows"] = _model_rows(b["rows"])
     chain = []
     for m in case["chain"]:
         if m[0] == "replace":
@@ -662,6 +903,14 @@ def _payload(case, table):
         else:
             chain.append(list(m))
     return {"base": b, "chain": chain, "table": table}
+
+
+def modelable(run):
+    try:
+        _payload(run, [])
+        return True
+    except NotInField:
+        return False
 
 
 def _dyadic(x):
@@ -701,6 +950,7 @@ def _resolve(need, flags):
 
 
 _REQ_CACHE = {}
+_ORACLE_ONLY = [0]
 _GENERATED = []  # the cases handed out by corpus() / generate(): their external tables are resolved in one batch
 
 
@@ -754,7 +1004,7 @@ def _prefetch(runs):
 def _requests_run(run):
     key = _run_key(run)
     if key not in _REQ_CACHE:
-        pending = [r for c in _GENERATED for r in case_runs(c)]
+        pending = [r for c in _GENERATED if all(modelable(x) for x in case_runs(c)) for r in case_runs(c)]
         del _GENERATED[:]
         _prefetch(pending + [run])
     return _REQ_CACHE[key]
@@ -763,25 +1013,43 @@ def _requests_run(run):
 def requests(case, out):
     """one `chain` request per run (a session is answered run by run: the model is a pure function of base + chain, which is
     exactly what the property says the implementation must be)"""
+    if not all(modelable(run) for run in case_runs(case)):
+        _ORACLE_ONLY[0] += 1
+        return []  # some value is outside Q(zeta8): oracle-only
     return [r for run in case_runs(case) for r in _requests_run(run)]
 
 
 def _norm_model_params(ps):
+    """model parameters -> canonical {"c": cyc} (custom value) / {"a": [cyc, cyc]} (built-in half-angle point)"""
     out = []
     for p in ps:
         if isinstance(p, dict):
-            a, b, c, d = p["v"]
-            out.append({"v": [a, c]} if (unrat(b) == 0 and unrat(d) == 0) else {"v": p["v"]})
+            out.append({"c": _cyc(p["v"])})
         else:
-            out.append([p[0][0], p[1][0]] if all(unrat(x) == 0 for x in p[0][1:] + p[1][1:]) else p)
+            out.append({"a": [_cyc(p[0]), _cyc(p[1])]})
     return out
 
 
 def _norm_params(ps):
+    """implementation-side parameter specs -> the same canonical form (already canonical entries pass through)"""
     if isinstance(ps, dict):
         return ps
-    return [({"v": [rat(unrat(p["v"][0])), rat(unrat(p["v"][1]))]} if isinstance(p, dict)
-             else [rat(unrat(p[0])), rat(unrat(p[1]))]) for p in ps]
+    out = []
+    for p in ps:
+        if isinstance(p, dict) and ("c" in p or "a" in p):
+            out.append(p)
+        elif isinstance(p, dict) and "pi" in p:
+            try:
+                out.append({"a": _pi_halfangle(p["pi"])})
+            except NotInField:
+                out.append(p)
+        elif isinstance(p, dict) and "x" in p:
+            out.append({"c": _cyc(XTAB[p["x"]])} if XTAB[p["x"]] is not None else p)
+        elif isinstance(p, dict):
+            out.append({"c": _cyc([p["v"][0], 0, p["v"][1], 0])})
+        else:
+            out.append({"a": [_cyc([p[0], 0, 0, 0]), _cyc([p[1], 0, 0, 0])]})
+    return out
 
 
 def _norm_struct(s, model):
@@ -1050,6 +1318,9 @@ def _vary_param_list(rng, bspec, params):
         else:
             ps[j] = circ.rat_angle(rng, 0.2)
     else:
+        if "v" not in ps[j]:
+            ps[j] = {"x": rng.choice([n for n in ("m1^(3/4)", "sqrt(2)/2", "m1^(-1/4)", "root(-4,4)") if n != ps[j]["x"]])}
+            return ps
         v = ps[j]["v"]
         ps[j] = {"v": [rat(unrat(v[0]) + rng.choice([-1, 1, Fraction(1, 2)])), v[1]]} if rng.random() < 0.5 else \
             {"v": [v[0], rat(unrat(v[1]) + rng.choice([-1, 1, Fraction(1, 4)]))]}
@@ -1076,11 +1347,11 @@ def _v_name(rng, run, fast):
             rows = [[e if isinstance(e, dict) else list(e) for e in row] for row in b["rows"]]
             if len(rows) == 2:
                 z = [0, 0]
-                lower = [[[1, 0] if isinstance(e, dict) else list(e) for e in row] for row in rows]
+                lower = [[[1, 0] if (isinstance(e, dict) and "sym" in e) else (e if isinstance(e, dict) else list(e)) for e in row] for row in rows]
                 rows = [rows[0] + [z, z], rows[1] + [z, z], [z, z] + lower[0], [z, z] + lower[1]]
             else:
                 rows = [row[:2] for row in rows[:2]]
-                if {e["sym"] for row in rows for e in row if isinstance(e, dict)} != set(range(b["nsyms"])):
+                if {e["sym"] for row in rows for e in row if isinstance(e, dict) and "sym" in e} != set(range(b["nsyms"])):
                     return None
             nb = dict(b, rows=rows)
         elif r < 0.8:
@@ -1199,6 +1470,8 @@ def _session(rng, seed, fast, tier, n_variants):
 
 def _int_seed_run(rng):
     base = _random_base(rng, 2, custom_prob=0.3)
+    if rng.random() < 0.12:
+        base = _syntax_const_base(rng) or base
     if "gate" in base and rng.random() < 0.5:
         # parametric built-ins are where a key made of too few components collides
         base = {"gate": rng.choice([n for n in circ.BUILTIN_PARAMS if circ.BUILTIN_PARAMS[n] > 0 and n != "RH"])}
@@ -1358,6 +1631,237 @@ def _special_cases(rng, tier, n):
     return out
 
 
+# ------------------------------------------------------------------ values whose nature is not visible syntactically
+X_UNIT = ["m1^(1/4)", "m1^(3/4)", "m1^(-1/4)", "m1^(5/4)", "m1^(1/3)", "m1^(2/3)", "m1^(-2/3)", "m1^(1/6)", "m1^(1/8)", "m1^(3/8)",
+          "root(-1,3)^2", "exp(i pi/4)", "exp(-3i pi/4)", "exp(i pi/3)", "exp(-2i pi/3)", "exp(i pi/8)", "sqrt(I)", "(1+I)/sqrt(2)",
+          "I^(3/2)", "exp_polar(i pi/4)", "exp_polar(-i pi/3)", "exp(i pi/2)", "complex(0,1)"]
+X_COMPLEX = X_UNIT + ["root(-4,4)", "root(-16,4)", "root(-8,3)", "(-27)^(1/3)", "sqrt(-2)", "sqrt(-9)", "Mul(2,1/2+I)", "z-1/z",
+                      "complex(0.5,-0.25)", "0.5*I"]
+X_REAL = ["sqrt(2)/2", "1+sqrt(2)", "-sqrt(2)", "cos(1)", "2^(1/3)", "cos(pi/8)", "pi/4", "z+1/z", "Float(0.5)", "Float(-1.25)",
+          "Float(2.0)", "exp(i pi)"]
+X_HIDDEN_COMPLEX = [n for n in X_COMPLEX if n.startswith(("m1^", "root(", "(-27)", "z-1/z"))]  # complex, no syntactic I
+PI_MULTIPLES = [0, "1/2", 1, "-1/2", "3/2", 2, "1/4", "-3/4", "1/3", "2/3", "-1/6", "1/8", "5/4"]
+PI_GATES = ["RX", "RY", "RZ", "PHASE", "GPi", "GPi2", "CPHASE", "XX", "YY", "ZZ", "XY"]
+PI_DIAGONAL = ["RZ", "PHASE", "CPHASE", "ZZ"]
+
+
+def _entry_value(e, params=None):
+    if isinstance(e, dict):
+        if "x" in e:
+            return _xval(e["x"])
+        if "xp" in e:
+            out = 1
+            for n in e["xp"]:
+                out *= _xval(n)
+            return out
+        return None
+    return complex(float(unrat(e[0])), float(unrat(e[1])))
+
+
+def _det2_ok(rows):
+    vals = [[_entry_value(e) for e in row] for row in rows]
+    if any(v is None for row in vals for v in row):
+        return True
+    if len(vals) != 2:
+        return True
+    return abs(vals[0][0] * vals[1][1] - vals[0][1] * vals[1][0]) > 0.3
+
+
+def _syntax_base(rng):
+    """custom gate (or built-in at an exact multiple of pi) whose entries / parameters hide what they are.
+    returns (base spec without params, parameter generator, externals_ok)"""
+    _counter[0] += 1
+    name = f"xg{_counter[0]}"
+    def X(pool):
+        inside = [n for n in pool if XTAB[n] is not None]  # half of the time a value the model's field Q(zeta8) contains
+        return {"x": rng.choice(inside if (inside and rng.random() < 0.5) else pool)}
+    g = lambda: [rng.randrange(-2, 3), rng.randrange(-2, 3)]  # noqa: E731
+    gr = lambda: [rng.choice([-2, -1, 1, 2, 3]), 0]  # noqa: E731
+    Z = [0, 0]
+    for _ in range(50):
+        t = rng.choice(["diag1x", "diag1x", "diag1x", "diagxy", "tri", "dense", "dense", "herm", "symm", "symm", "diag4", "block4",
+                        "zpow", "zpow", "zpow", "unitary", "unitary", "unitary", "symparam", "symparam", "flags", "pi", "pi", "pi",
+                        "undecided", "undecided"])
+        pgen = lambda: []  # noqa: E731
+        ext = False
+        if t == "diag1x":  # cirq-style phase gate at a fixed root of unity
+            b = {"custom": name, "rows": [[[1, 0], Z], [Z, X(X_UNIT + X_HIDDEN_COMPLEX)]], "nsyms": 0}
+            ext = True
+        elif t == "diagxy":
+            b = {"custom": name, "rows": [[X(X_COMPLEX + X_REAL), Z], [Z, X(X_COMPLEX)]], "nsyms": 0}
+            ext = True
+        elif t == "tri":
+            b = {"custom": name, "rows": [[X(X_COMPLEX + X_REAL), rng.choice([g(), X(list(XZERO)), X(X_COMPLEX), X(X_UNDECIDED), X(X_UNDECIDED)])],
+                                          [rng.choice([Z, X(list(XZERO))]), X(X_COMPLEX + X_REAL)]], "nsyms": 0}
+            ext = True
+        elif t == "undecided":  # off-diagonal entries that are non-zero (or zero) without sympy being able to tell
+            u = rng.choice([X(X_UNDECIDED), X(X_UNDECIDED), {"x": "hidden0c"}])
+            v = rng.choice([Z, Z, X(X_UNDECIDED), {"x": "hidden0c"}])
+            b = {"custom": name, "rows": [[rng.choice([gr(), X(X_COMPLEX + X_REAL)]), u], [v, rng.choice([gr(), X(X_COMPLEX)])]], "nsyms": 0}
+            ext = True
+        elif t == "dense":
+            b = {"custom": name, "rows": [[rng.choice([gr(), X(X_REAL)]), X(X_COMPLEX)], [rng.choice([g(), X(X_COMPLEX)]), rng.choice([g(), X(X_COMPLEX + X_REAL)])]],
+                 "nsyms": 0}
+        elif t == "unitary":  # sqrt(2)/2 * [[1, x], [y, -x y]] with |x| = |y| = 1: unitary; self-adjoint iff y = conj(x)
+            hid = [n for n in X_UNIT if n.startswith(("m1^", "root("))]
+            x = rng.choice(hid if rng.random() < 0.7 else X_UNIT)
+            y = XCONJ[x] if (x in XCONJ and rng.random() < 0.35) else rng.choice(hid if rng.random() < 0.7 else X_UNIT)
+            h = "sqrt(2)/2"
+            b = {"custom": name, "rows": [[{"x": h}, {"xp": [h, x]}], [{"xp": [h, y]}, {"xp": ["minus1", h, x, y]}]], "nsyms": 0}
+            ext = rng.random() < 0.3
+        elif t == "herm":  # self-adjoint, but only after evaluation: conj(x) is written as a different expression
+            x = rng.choice(list(XCONJ))
+            b = {"custom": name, "rows": [[gr(), {"x": x}], [{"x": XCONJ[x]}, gr()]], "nsyms": 0}
+        elif t == "symm":  # symmetric and without I -- looks like a real symmetric (= self-adjoint) matrix, is neither
+            x = X(X_HIDDEN_COMPLEX)
+            b = {"custom": name, "rows": [[rng.choice([gr(), X(X_REAL)]), x], [x, rng.choice([gr(), X(X_HIDDEN_COMPLEX)])]], "nsyms": 0}
+            ext = rng.random() < 0.3
+        elif t == "diag4":
+            d = [[1, 0], X(X_UNIT), X(X_UNIT if rng.random() < 0.6 else X_COMPLEX), rng.choice([[1, 0], [1, 0], X(X_REAL)])]
+            rng.shuffle(d)
+            b = {"custom": name, "rows": [[d[i] if i == j else Z for j in range(4)] for i in range(4)], "nsyms": 0}
+        elif t == "block4":
+            m = [[gr(), X(X_COMPLEX)], [g(), X(X_COMPLEX)]]
+            b = {"custom": name, "rows": [[[1, 0], Z, Z, Z], [Z, X(X_UNIT), Z, Z], [Z, Z] + m[0], [Z, Z] + m[1]], "nsyms": 0}
+            if not _det2_ok(m):
+                continue
+        elif t == "zpow":  # ZPow(t) = diag(1, (-1)**t) / diag(1, exp(i pi t)) at exact rational t
+            kind = rng.choice(["m1pow", "m1pow", "expipi"])
+            other = rng.choice([Z, Z, g()])
+            b = {"custom": name, "rows": [[[1, 0], other], [Z, {"xs": kind, "sym": 0}]], "nsyms": 1,
+                 "symflags": [rng.choice([None, None, "real"])]}
+            pgen = lambda: [{"v": [rat(Fraction(rng.choice([1, -1, 2, -2, 3, 5, 1, 3]), rng.choice([4, 3, 4, 3, 6, 8, 2, 1]))), 0]}]  # noqa: E731
+            ext = other == Z
+        elif t == "symparam":  # ordinary symbol entries, exotic VALUES substituted for them
+            rows = [[gr(), {"sym": 0}], [rng.choice([Z, g()]), rng.choice([gr(), {"sym": 1}])]]
+            n = 2 if rows[1][1] == {"sym": 1} else 1
+            b = {"custom": name, "rows": rows, "nsyms": n}
+            pgen = lambda n=n: [({"x": rng.choice(X_COMPLEX + X_REAL)} if rng.random() < 0.8 else _val(rng)) for _ in range(n)]  # noqa: E731
+        elif t == "flags":  # symbols that carry assumptions; the values handed in respect them
+            fl = rng.choice(["real", "positive", "complex"])
+            b = {"custom": name, "rows": [[{"sym": 0}, X(X_COMPLEX)], [rng.choice([g(), X(X_HIDDEN_COMPLEX)]), gr()]], "nsyms": 1, "symflags": [fl]}
+            if fl == "complex":
+                pgen = lambda: [rng.choice([_val(rng), {"x": rng.choice(X_COMPLEX)}])]  # noqa: E731
+            else:
+                pgen = lambda: [rng.choice([{"v": [rat(Fraction(rng.randrange(1, 7), rng.choice([1, 2, 4]))), 0]},  # noqa: E731
+                                            {"x": rng.choice(["sqrt(2)/2", "1+sqrt(2)", "cos(1)", "2^(1/3)", "Float(0.5)", "Float(2.0)", "pi/4"])}])]
+        else:  # built-in gate at an exact multiple of pi: exact matrices, the code path next to the float one
+            gname = rng.choice(PI_GATES)
+            b = {"gate": gname}
+            pgen = lambda: [{"pi": rng.choice(PI_MULTIPLES)}]  # noqa: E731
+            ext = gname in PI_DIAGONAL
+        if "rows" in b and len(b["rows"]) == 2 and not _det2_ok(b["rows"]):
+            continue
+        if "rows" in b:  # a hidden zero on the diagonal would make the gate singular: that is the malformed stream's business
+            if any(isinstance(b["rows"][i][i], dict) and b["rows"][i][i].get("x") in XZERO for i in range(len(b["rows"]))):
+                continue
+        return b, pgen, ext
+    return {"custom": name, "rows": [[[1, 0], Z], [Z, {"x": "m1^(1/4)"}]], "nsyms": 0}, (lambda: []), True
+
+
+SYNTAX_PATTERNS = [  # (needs externals, needs parameters, chain); "n" = integer, "-n" = negative integer, "1/q", "P" = new parameters
+    (0, 0, [["dagger"]]), (0, 0, [["dagger"], ["controlled", 1]]), (0, 0, [["controlled", 2], ["dagger"]]),
+    (0, 0, [["dagger"], ["power", "n"]]), (0, 0, [["power", "-n"]]), (0, 0, [["power", "-n"], ["dagger"]]),
+    (0, 0, [["controlled", 1], ["power", "-n"]]), (0, 0, [["power", "-n"], ["controlled", 1], ["dagger"]]), (0, 0, [["dagger"], ["power", "-n"]]),
+    (1, 0, [["exp"], ["dagger"]]), (1, 0, [["dagger"], ["exp"]]), (1, 0, [["exp"], ["power", "-n"]]), (1, 0, [["exp"], ["dagger"], ["controlled", 1]]),
+    (1, 0, [["power", "1/q"]]), (1, 0, [["power", "1/q"], ["power", "n"]]), (1, 0, [["dagger"], ["power", "1/q"]]), (1, 0, [["power", "-n"], ["exp"]]),
+    (0, 1, [["replace", "P"], ["dagger"]]), (0, 1, [["dagger"], ["replace", "P"]]), (0, 1, [["power", "-n"], ["replace", "P"]]),
+    (0, 1, [["controlled", 1], ["replace", "P"], ["dagger"]]), (1, 1, [["exp"], ["replace", "P"], ["dagger"]]), (1, 1, [["power", "1/q"], ["replace", "P"]]),
+]
+
+
+def _syntax_chain(rng, base, pgen, ext_ok, depth):
+    nq = _base_nq(base)
+    has_params = bool(base["params"])
+    if rng.random() < 0.65:
+        ok = [c for (e, pr, c) in SYNTAX_PATTERNS if (not e or (ext_ok and nq == 1)) and (not pr or has_params)]
+        chain = []
+        for m in rng.choice(ok):
+            if m[0] == "power" and m[1] == "n":
+                chain.append(["power", rng.choice([-2, 2, 3])])
+            elif m[0] == "power" and m[1] == "-n":
+                chain.append(["power", rng.choice([-1, -1, -2, -3])] + (["f"] if rng.random() < 0.1 else []))
+            elif m[0] == "power":
+                chain.append(["power", f"1/{rng.choice([2, 2, 3, 4, 5])}"])
+            elif m[0] == "replace":
+                chain.append(["replace", pgen()])
+            else:
+                chain.append(list(m))
+        return chain
+    chain, ext_used = [], 0
+    for _ in range(depth):
+        kinds = ["dagger", "dagger", "dagger", "power", "power", "controlled"]
+        if has_params:
+            kinds += ["replace", "replace"]
+        if ext_ok and nq <= 1 + (1 if "gate" in base else 0) and ext_used < 1:
+            kinds += ["exp", "frac"]
+        t = rng.choice(kinds)
+        if t == "controlled":
+            if nq >= 3:
+                t = "dagger"
+            else:
+                k = rng.randrange(1, 4 - nq)
+                chain.append(["controlled", k])
+                nq += k
+                continue
+        if t == "dagger":
+            chain.append(["dagger"])
+        elif t == "power":
+            chain.append(["power", rng.choice([-3, -2, -1, -1, 0, 2, 3, 4])] + (["f"] if rng.random() < 0.15 else []))
+        elif t == "frac":
+            chain.append(["power", f"1/{rng.choice([2, 2, 3, 4, 5])}"])
+            ext_used += 1
+        elif t == "exp":
+            chain.append(["exp"])
+            ext_used += 1
+        elif t == "replace":
+            chain.append(["replace", pgen()])
+    return chain
+
+
+FIRST_MODIFIERS = ["dagger", "power-neg", "exp", "controlled", "power-frac", "power-pos", "replace", "power-neg", "dagger", "exp"]
+
+
+def _first_modifier_chain(rng, base, pgen, ext_ok, which):
+    """the modifier that is applied FIRST sees the matrix exactly as the user wrote it"""
+    small = _base_nq(base) == 1
+    if which == "replace" and not base["params"]:
+        which = "power-neg"
+    if which in ("exp", "power-frac") and not (ext_ok and small):
+        which = "dagger" if which == "exp" else "power-neg"
+    first = {"dagger": ["dagger"], "exp": ["exp"], "controlled": ["controlled", rng.choice([1, 2])],
+             "power-neg": ["power", rng.choice([-1, -2, -3])], "power-pos": ["power", rng.choice([2, 3])],
+             "power-frac": ["power", f"1/{rng.choice([2, 3, 4])}"]}.get(which) or ["replace", pgen()]
+    rest = rng.choice([[], [["dagger"]], [["dagger"]], [["controlled", 1]], [["power", rng.choice([-1, 2])]], [["dagger"], ["controlled", 1]]])
+    if first == ["dagger"] and rest[:1] == [["dagger"]]:
+        rest = [["power", -1]]
+    return [first] + rest
+
+
+def _syntax_cases(rng, tier, n):
+    out = []
+    for i in range(n // 2):
+        base, pgen, ext_ok = _syntax_base(rng)
+        base["params"] = pgen()
+        out.append({"kind": "syntax", "base": base, "tier": tier,
+                    "chain": _first_modifier_chain(rng, base, pgen, ext_ok, FIRST_MODIFIERS[i % len(FIRST_MODIFIERS)])})
+        chain = _syntax_chain(rng, base, pgen, ext_ok, rng.choice([1, 2, 2, 3, 3]))
+        if not any(m[0] == "dagger" for m in chain) and rng.random() < 0.5:
+            chain.insert(rng.randrange(len(chain) + 1), ["dagger"])  # conjugation is where a hidden complex number shows
+        out.append({"kind": "syntax", "base": base, "chain": chain, "tier": tier})
+    return out
+
+
+def _syntax_const_base(rng):
+    """a non-parametric custom gate with hidden-nature entries, for the sessions"""
+    for _ in range(30):
+        b, pgen, _ = _syntax_base(rng)
+        if "rows" in b and b["nsyms"] == 0 and len(b["rows"]) == 2:
+            b["params"] = []
+            return b
+    return None
+
+
 def corpus():
     return _register(_corpus())
 
@@ -1430,6 +1934,21 @@ def _corpus():
          "chain": [["replace", [{"v": ["3/4", "2/3"]}]], ["controlled", 1], ["dagger"], ["replace", [{"v": [1, 0]}]]]},
         {"kind": "special", "base": {"gate": "PHASE", "params": [[0, 1]]}, "chain": [["power", 2], ["dagger"], ["replace", [["4/5", "3/5"]]]]},
         {"kind": "special", "base": {"gate": "RZ", "params": [[1, 0]]}, "chain": [["dagger"], ["replace", [["4/5", "3/5"]]], ["dagger"]]},
+        # --- values whose nature is not visible syntactically
+        {"kind": "syntax", "base": {"custom": "corpus_zpow", "rows": [[[1, 0], [0, 0]], [[0, 0], {"xs": "m1pow", "sym": 0}]], "nsyms": 1,
+                                    "params": [{"v": ["1/4", 0]}]},
+         "chain": [["dagger"], ["controlled", 1], ["replace", [{"v": ["-2/3", 0]}]], ["power", 2]]},
+        {"kind": "syntax", "base": {"custom": "corpus_omega", "rows": [[[1, 0], [0, 0]], [[0, 0], {"x": "root(-1,3)^2"}]], "nsyms": 0, "params": []},
+         "chain": [["controlled", 2], ["dagger"], ["power", -1]]},
+        {"kind": "syntax", "base": {"custom": "corpus_z8", "rows": [[[2, 0], {"x": "m1^(1/4)"}], [{"x": "m1^(1/4)"}, {"x": "sqrt(2)/2"}]], "nsyms": 0, "params": []},
+         "chain": [["exp"], ["dagger"], ["power", -1]]},
+        {"kind": "syntax", "base": {"custom": "corpus_hd", "rows": [[[1, 0], {"x": "m1^(3/4)"}], [{"x": "m1^(5/4)"}, [2, 0]]], "nsyms": 0, "params": []},
+         "chain": [["dagger"], ["power", -2], ["controlled", 1]]},
+        {"kind": "syntax", "base": {"custom": "corpus_sv", "rows": [[[1, 0], {"sym": 0}], [{"x": "hidden0"}, [2, 0]]], "nsyms": 1,
+                                    "params": [{"x": "root(-4,4)"}]},
+         "chain": [["power", -1], ["dagger"], ["replace", [{"x": "exp_polar(i pi/4)"}]], ["power", "1/2"]]},
+        {"kind": "syntax", "base": {"gate": "RZ", "params": [{"pi": "1/2"}]}, "chain": [["dagger"], ["power", "1/2"], ["replace", [{"pi": "2/3"}]], ["exp"]]},
+        {"kind": "syntax", "base": {"gate": "XX", "params": [{"pi": "3/2"}]}, "chain": [["power", -3], ["dagger"], ["controlled", 1]]},
         # --- exotic but legal: float-typed integer exponents, large exponents, many controls, roots beyond 1/4
         {"kind": "exotic", "base": rx, "chain": [["power", 2, "f"], ["dagger"], ["power", -1, "f"]]},
         {"kind": "exotic", "base": cg, "chain": [["power", 0, "f"], ["controlled", 1]]},
@@ -1493,6 +2012,8 @@ def _generate(rng, tier):
         cases.append(_session(rng, _ext_seed_run(rng), True, tier, rng.choice([2, 3, 3])))
     # parameter values at which the matrix happens to be self-adjoint / the identity, replaced by generic ones (and back)
     cases.extend(_special_cases(rng, tier, 120 if big else 30))
+    # matrix entries / parameter values whose complexness, realness, zeroness or numberness is not visible syntactically
+    cases.extend(_syntax_cases(rng, tier, 240 if big else 60))
     # exotic but legal arguments
     cases.extend(_exotic_cases(rng, tier, *((100, 24, 40) if big else (24, 6, 12))))
     # malformed stream
@@ -1521,7 +2042,7 @@ def _generate(rng, tier):
 def nontrivial(case):
     if is_session(case):
         return len(case["runs"]) >= 3 and all(len(r["chain"]) >= 1 for r in case["runs"])
-    return case["kind"] in ("chain", "special", "exotic") and len(case["chain"]) >= 2
+    return case["kind"] in ("chain", "special", "exotic", "syntax") and len(case["chain"]) >= 2
 
 
 def distribution(cases, outs):
@@ -1556,7 +2077,7 @@ def distribution(cases, outs):
                     rereads += 1
     return {"modifier_kinds": kinds, "chain_depth": depth, "matrices_by_num_qubits": nqh, "matrices_evaluated": mats,
             "runs_total": runs_total, "session_run_order": orders, "session_object_sharing": shares,
-            "matrices_read_twice_after_editing_first_answer": rereads, "matrix_property_calls": _EVALS[0],
+            "matrices_read_twice_after_editing_first_answer": rereads, "oracle_only_cases_value_outside_Q_zeta8": _ORACLE_ONLY[0], "matrix_property_calls": _EVALS[0],
             "sympy_timeouts": timeouts, "sympy_external_failures": exterr,
             "branch_ambiguous_matrix_comparisons_skipped": _SUPPRESSED[0],
             "branch_ambiguous_cases": sum(1 for f in _FLAGS.values() if f.get("ambiguous")),
